@@ -175,6 +175,41 @@ pub fn oracle_ref(s: &Store, bank: &Bank) -> Result<OracleRef, OracleErr> {
             let b = band(&p, &c, &q_const(STD_DEV_MULTIPLE), cfg.oracle_max_confidence);
             Ok(OracleRef { spot: p.clone(), spot_band: b.clone(), twap: p, twap_band: b })
         }
+        OracleSetup::StakedWithPythPush => {
+            // SOL price from the Pyth account, times the pool's exchange rate: (delegated stake minus
+            // the pool's permanent 1 SOL) / LST supply, applied to the raw integer prices (confidence
+            // stays that of the SOL price)
+            let a = s.get(&cfg.oracle_keys[0]).ok_or(OracleErr::Missing)?;
+            if a.owner != pyth_solana_receiver_sdk::id() {
+                return Err(OracleErr::WrongOwner);
+            }
+            let p = parse_pyth(&a.data).ok_or(OracleErr::BadData)?;
+            if !p.full {
+                return Err(OracleErr::LowVerification);
+            }
+            if p.publish_time.saturating_add(max_age) < s.now {
+                return Err(OracleErr::Stale);
+            }
+            let mint = s.get(&cfg.oracle_keys[1]).ok_or(OracleErr::Missing)?;
+            let pool = s.get(&cfg.oracle_keys[2]).ok_or(OracleErr::Missing)?;
+            if mint.data.len() < 44 || pool.data.len() < 164 {
+                return Err(OracleErr::BadData);
+            }
+            let supply = u64::from_le_bytes(mint.data[36..44].try_into().unwrap());
+            // StakeStateV2::Stake: tag u32, Meta (8 + 64 + 48 = 120 bytes), Delegation { voter 32, stake u64, .. }
+            let stake = u64::from_le_bytes(pool.data[4 + 120 + 32..4 + 120 + 32 + 8].try_into().unwrap());
+            if supply == 0 || stake < 1_000_000_000 {
+                return Err(OracleErr::BadData);
+            }
+            let adj = (stake - 1_000_000_000) as i128;
+            let scale = pow10_signed(p.expo);
+            let mult = q_const(CONF_INTERVAL_MULTIPLE);
+            let spot = rf::qi((p.price as i128 * adj).div_euclid(supply as i128)) * scale.clone();
+            let twap = rf::qi((p.ema_price as i128 * adj).div_euclid(supply as i128)) * scale.clone();
+            let sb = band(&spot, &(rf::qu(p.conf) * scale.clone()), &mult, cfg.oracle_max_confidence);
+            let tb = band(&twap, &(rf::qu(p.ema_conf) * scale), &mult, cfg.oracle_max_confidence);
+            Ok(OracleRef { spot, spot_band: sb, twap, twap_band: tb })
+        }
         OracleSetup::None => Err(OracleErr::NotSetup),
         _ => Err(OracleErr::Unsupported),
     }
